@@ -429,7 +429,32 @@ func r6ProducerBody(c *RuleCtx, fn *ssa.Function, props []string, name string, a
 		// non-nil / nil at this exit (it is what the exit returns)
 		evAssumeNonNil = 1 << 62
 		evAssumeNil    = 1 << 61
+		// the file was closed after every completion step (and Sync) had run
+		evOrderly = 1 << 60
 	)
+	// a buffer whose content is handed to the file in one Write (`f.Write(buf.Bytes())`) stands for the
+	// file: what is written into it is what the file will contain
+	var staged []ssa.Value
+	for _, cs := range callSites(fn) {
+		if callee := staticCallee(cs); callee != nil && callee.String() == "(*os.File).Write" && len(cs.Common().Args) == 2 && sameValue(cs.Common().Args[0], file) {
+			if bc, ok := cs.Common().Args[1].(*ssa.Call); ok {
+				if f := bc.Call.StaticCallee(); f != nil && f.String() == "(*bytes.Buffer).Bytes" && len(bc.Call.Args) == 1 {
+					staged = append(staged, bc.Call.Args[0])
+				}
+			}
+		}
+	}
+	wrapsOut := func(v ssa.Value) bool {
+		if wraps(v, file, 0) {
+			return true
+		}
+		for _, b := range staged {
+			if wraps(v, b, 0) {
+				return true
+			}
+		}
+		return false
+	}
 	// discover completion roles
 	var roles []*kRole
 	roleOf := map[ssa.CallInstruction]*kRole{}
@@ -474,10 +499,15 @@ func r6ProducerBody(c *RuleCtx, fn *ssa.Function, props []string, name string, a
 				addRole("Flush", cs, true)
 			}
 			continue
+		case "(*os.File).Write":
+			if sameValue(recvOrArg0(cs), file) {
+				addRole("Write", cs, true)
+			}
+			continue
 		}
 		if c.p.InZap(callee) && callee.Parent() == nil && errorResultIndex(callee.Signature) >= 0 {
 			for ai, a := range cs.Common().Args {
-				if wraps(a, file, 0) {
+				if wrapsOut(a) {
 					addRole(callee.Name(), cs, true)
 					if sameValue(a, file) && depth < 2 && ai < len(callee.Params) && len(callee.Blocks) > 0 && isNamed(callee.Params[ai].Type(), "os", "File") {
 						// handed the file itself: a delegate, judged by the same discipline
@@ -515,10 +545,153 @@ func r6ProducerBody(c *RuleCtx, fn *ssa.Function, props []string, name string, a
 		return 0
 	}
 
+	// Path-sensitive knowledge about the errors of the completion calls, for code that folds them into one
+	// variable (`if err == nil { err = f.Sync() }`, `if cerr := f.Close(); err == nil { err = cerr }`):
+	//   U_s: the error of site s may be non-nil and has not been found nil;   N_s: it was found non-nil;
+	//   H_{p,i}: the error-typed phi p currently holds its i-th operand.
+	type esite struct {
+		cs   ssa.CallInstruction
+		errv ssa.Value
+		u, n uint64
+	}
+	var esites []*esite
+	siteOfErr := map[ssa.Value]*esite{}
+	siteOfCall := map[ssa.Instruction]*esite{}
+	knowOverflow := false
+	{
+		bit := uint(16)
+		add := func(cs ssa.CallInstruction) {
+			ev := errValueOfCall(cs)
+			if ev == nil || siteOfErr[ev] != nil {
+				return
+			}
+			if bit+2 > 40 {
+				knowOverflow = true
+				return
+			}
+			e := &esite{cs: cs, errv: ev, u: 1 << bit, n: 1 << (bit + 1)}
+			bit += 2
+			esites = append(esites, e)
+			siteOfErr[ev] = e
+			siteOfCall[cs] = e
+		}
+		for _, r := range roles {
+			for _, st := range r.sites {
+				add(st)
+			}
+		}
+		for _, st := range syncSites {
+			add(st)
+		}
+		for _, st := range closeSites {
+			add(st)
+		}
+	}
+	holder := map[*ssa.Phi][]uint64{}
+	{
+		hbit := uint(40)
+		eachInstr(fn, func(_ *ssa.BasicBlock, in ssa.Instruction) {
+			ph, ok := in.(*ssa.Phi)
+			if !ok || !isErrorType(ph.Type()) {
+				return
+			}
+			if hbit+uint(len(ph.Edges)) > 60 {
+				knowOverflow = true
+				return
+			}
+			bits := make([]uint64, len(ph.Edges))
+			for i := range bits {
+				bits[i] = 1 << hbit
+				hbit++
+			}
+			holder[ph] = bits
+		})
+	}
+	var resolveErr func(v ssa.Value, ev uint64, depth int) *esite
+	resolveErr = func(v ssa.Value, ev uint64, depth int) *esite {
+		if depth > 6 || v == nil {
+			return nil
+		}
+		if e := siteOfErr[v]; e != nil {
+			return e
+		}
+		if ph, ok := v.(*ssa.Phi); ok {
+			if bits := holder[ph]; bits != nil {
+				for i, b := range bits {
+					if ev&b != 0 {
+						return resolveErr(ph.Edges[i], ev, depth+1)
+					}
+				}
+			}
+			return nil
+		}
+		if r := resolveLoad(v); r != v {
+			return resolveErr(r, ev, depth+1)
+		}
+		return nil
+	}
+	// nilTestOf: cond is `x == nil` / `x != nil` on an error; returns x and the outcome that means "x is nil"
+	nilTestOf := func(cond ssa.Value) (ssa.Value, bool, bool) {
+		neg := false
+		for {
+			if u, ok := cond.(*ssa.UnOp); ok && u.Op == token.NOT {
+				cond, neg = u.X, !neg
+				continue
+			}
+			break
+		}
+		bo, ok := cond.(*ssa.BinOp)
+		if !ok || (bo.Op != token.EQL && bo.Op != token.NEQ) {
+			return nil, false, false
+		}
+		var x ssa.Value
+		switch {
+		case isNilConst(bo.Y):
+			x = bo.X
+		case isNilConst(bo.X):
+			x = bo.Y
+		default:
+			return nil, false, false
+		}
+		if !isErrorType(x.Type()) {
+			return nil, false, false
+		}
+		return x, (bo.Op == token.EQL) != neg, true
+	}
+	learnErr := func(cond ssa.Value, outcome bool, ev uint64) uint64 {
+		x, nilWhen, ok := nilTestOf(cond)
+		if !ok {
+			return ev
+		}
+		if e := resolveErr(x, ev, 0); e != nil {
+			if outcome == nilWhen {
+				ev &^= e.u
+			} else {
+				ev |= e.n
+			}
+		}
+		return ev
+	}
+
 	var tr transferFn
 	var pa *pathAnalysis
 	closureSummary := map[*ssa.Function]uint64{}
+	var tr0 transferFn
 	tr = func(in ssa.Instruction, ev uint64, deferred bool) []uint64 {
+		out := tr0(in, ev, deferred)
+		if e := siteOfCall[in]; e != nil {
+			if _, isDefer := in.(*ssa.Defer); !isDefer || deferred {
+				if out == nil {
+					out = []uint64{ev}
+				}
+				for i := range out {
+					out[i] = (out[i] | e.u) &^ e.n
+				}
+			}
+		}
+		return out
+	}
+	tr0 = func(in ssa.Instruction, ev uint64, deferred bool) []uint64 {
 		cs, ok := in.(ssa.CallInstruction)
 		if !ok {
 			return nil
@@ -536,6 +709,15 @@ func r6ProducerBody(c *RuleCtx, fn *ssa.Function, props []string, name string, a
 		switch callee.String() {
 		case "(*os.File).Close":
 			if sameValue(recvOrArg0(cs), file) {
+				orderly := len(syncSites) == 0 || ev&evSync != 0
+				for _, r := range roles {
+					if ev&r.bit == 0 {
+						orderly = false
+					}
+				}
+				if orderly && ev&evClosed == 0 {
+					return []uint64{ev | evClosed | evOrderly}
+				}
 				return []uint64{ev | evClosed}
 			}
 		case "(*os.File).Sync":
@@ -592,23 +774,70 @@ func r6ProducerBody(c *RuleCtx, fn *ssa.Function, props []string, name string, a
 		return nil
 	}
 	pa = newPathAnalysis(fn, tr)
-	if len(delegateSucc) > 0 {
-		// what a delegate has certainly done is known on the edge where its
-		// error was found nil
-		pa.edgeTr = func(pred *ssa.BasicBlock, succIdx int, ev uint64) uint64 {
-			if len(pred.Succs) != 2 {
-				return ev
-			}
-			for cs, succ := range delegateSucc {
+	pa.edgeTr = func(pred *ssa.BasicBlock, succIdx int, ev uint64) uint64 {
+		succ := pred.Succs[succIdx]
+		if len(pred.Succs) == 2 && len(delegateSucc) > 0 {
+			// what a delegate has certainly done is known on the edge where its
+			// error was found nil
+			for cs, s := range delegateSucc {
 				dv := errValueOfCall(cs)
 				if dv == nil {
 					continue
 				}
-				if branchFact(pred, pred.Succs[succIdx], dv) == isNil {
-					ev |= succ
+				if branchFact(pred, succ, dv) == isNil {
+					ev |= s
 				}
 			}
-			return ev
+		}
+		if !knowOverflow {
+			if iff, ok := pred.Instrs[len(pred.Instrs)-1].(*ssa.If); ok && len(pred.Succs) == 2 && pred.Succs[0] != pred.Succs[1] {
+				ev = learnErr(iff.Cond, succIdx == 0, ev)
+			}
+			// which operand the error phis of the successor take on this edge
+			for _, in := range succ.Instrs {
+				ph, ok := in.(*ssa.Phi)
+				if !ok {
+					break
+				}
+				bits := holder[ph]
+				if bits == nil {
+					continue
+				}
+				for i, p := range succ.Preds {
+					if p == pred {
+						for _, b := range bits {
+							ev &^= b
+						}
+						ev |= bits[i]
+						break
+					}
+				}
+			}
+		}
+		return ev
+	}
+	if !knowOverflow {
+		pa.edge = func(pred, succ *ssa.BasicBlock, ev uint64) bool {
+			iff, ok := pred.Instrs[len(pred.Instrs)-1].(*ssa.If)
+			if !ok || len(pred.Succs) != 2 || pred.Succs[0] == pred.Succs[1] {
+				return true
+			}
+			x, nilWhen, ok := nilTestOf(iff.Cond)
+			if !ok {
+				return true
+			}
+			e := resolveErr(x, ev, 0)
+			if e == nil {
+				return true
+			}
+			saysNil := (succ == pred.Succs[0]) == nilWhen
+			if saysNil && ev&e.n != 0 {
+				return false // found non-nil before: this branch cannot be taken
+			}
+			return true
+		}
+		pa.condTr = func(cond ssa.Value, outcome bool, ev uint64, _ func(ssa.Value) ssa.Value) uint64 {
+			return learnErr(cond, outcome, ev)
 		}
 	}
 	pa.run(0)
@@ -637,34 +866,11 @@ func r6ProducerBody(c *RuleCtx, fn *ssa.Function, props []string, name string, a
 				fmt.Sprintf("%s can run before %s", r.name, strings.Join(uniq(missing), ",")), props, nil)
 		}
 	}
-	for _, site := range closeSites {
-		if !pa.reachable(site.Block()) {
-			continue
-		}
-		okOrder := true
-		var missing []string
-		for _, ev := range pa.statesBefore(site) {
-			if ev&evClosed != 0 {
-				continue // a later, redundant close (cleanup after a failed Close)
-			}
-			for _, r := range roles {
-				if ev&r.bit == 0 {
-					okOrder = false
-					missing = append(missing, r.name)
-				}
-			}
-			if len(syncSites) > 0 && ev&evSync == 0 {
-				okOrder = false
-				missing = append(missing, "Sync")
-			}
-		}
-		c.add(statusOf(okOrder), name+"/order/Close", c.pos(site),
-			fmt.Sprintf("in %s, the file is closed on the completion path only after every completion step", name),
-			"Close can run before "+strings.Join(uniq(missing), ","), props, nil)
-	}
-
+	// (that Close comes after every completion step and after Sync is judged where it matters: at the
+	// exits that report success, below — a Close that doubles as the cleanup of a failed step may well
+	// run early)
 	// exits
-	succMust := uint64(evClosed | evSync)
+	succMust := uint64(evClosed | evSync | evOrderly)
 	nSucc := 0
 	labels := map[string]int{}
 	for _, ret := range returnsOf(fn) {
@@ -675,6 +881,19 @@ func r6ProducerBody(c *RuleCtx, fn *ssa.Function, props []string, name string, a
 		key := name + "/" + exitLabel(ret, labels)
 		pos := c.pos(ret)
 		states := pa.statesBefore(ret)
+		if acq != nil && !(acq.Block() == ret.Block() || acq.Block().Dominates(ret.Block())) {
+			// the output file does not exist yet on this path
+			switch {
+			case ns == nonNil:
+				c.okP(props, key, pos, "failure exit before the output file is created: nothing to clean up")
+			case delegatesToProducer(c.p, v, pathArg):
+				c.okP(props, key, pos, "the whole production is handed to another file-producing function, judged on its own")
+			default:
+				c.badP(props, key+"/before-acquisition", pos, name+" reports success only after it (or a producer it hands the path to) created and completed the output file",
+					"this exit can report success although the output file was never created on this path", exitWitness(c, ret, v)...)
+			}
+			continue
+		}
 		if v != nil && aerr != nil && (sameValue(v, aerr) || sameValue(resolveLoad(v), aerr)) && ns == nonNil {
 			c.okP(props, key, pos, "exit after failed acquisition needs no cleanup")
 			continue
@@ -730,6 +949,9 @@ func r6ProducerBody(c *RuleCtx, fn *ssa.Function, props []string, name string, a
 				if ev&evClosed == 0 {
 					okc = false
 					why = append(why, "the file is not closed before reporting success")
+				} else if ev&evOrderly == 0 && viaReturned&evClosed == 0 && len(closeSites) > 0 {
+					okc = false
+					why = append(why, "the file was closed before every completion step (and Sync) had run")
 				}
 				for _, r := range roles {
 					if r.required && ev&r.bit == 0 {
@@ -755,6 +977,18 @@ func r6ProducerBody(c *RuleCtx, fn *ssa.Function, props []string, name string, a
 					return
 				}
 				if nilnessAt(ev, ret.Block()) != isNil {
+					// folded into one error variable? then the path analysis knows
+					if e := siteOfCall[site]; e != nil && !knowOverflow {
+						known := true
+						for _, st := range states {
+							if st&evAssumeNonNil == 0 && st&e.u != 0 {
+								known = false
+							}
+						}
+						if known {
+							return
+						}
+					}
 					okc = false
 					why = append(why, "error of "+nm+" ("+c.pos(site)+") is not known to be nil when success is reported")
 				}
@@ -779,6 +1013,43 @@ func r6ProducerBody(c *RuleCtx, fn *ssa.Function, props []string, name string, a
 		return 0
 	}
 	return succMust
+}
+
+// delegatesToProducer: the error value v returned by an exit is the error result of a call to a function
+// of package zap that creates a file itself and is handed the same path.
+func delegatesToProducer(p *Program, v, pathArg ssa.Value) bool {
+	if v == nil {
+		return false
+	}
+	var call *ssa.Call
+	switch x := v.(type) {
+	case *ssa.Extract:
+		call, _ = x.Tuple.(*ssa.Call)
+	case *ssa.Call:
+		call = x
+	}
+	if call == nil {
+		return false
+	}
+	callee := call.Call.StaticCallee()
+	if callee == nil || !p.InZap(callee) {
+		return false
+	}
+	creates := false
+	for _, cs := range callSites(callee) {
+		if isCallTo(cs, "os.OpenFile") || isCallTo(cs, "os.Create") {
+			creates = true
+		}
+	}
+	if !creates {
+		return false
+	}
+	for _, a := range call.Call.Args {
+		if sameValue(a, pathArg) {
+			return true
+		}
+	}
+	return false
 }
 
 func statusOf(ok bool) Status {
@@ -1645,7 +1916,7 @@ func r6FaissProducers(c *RuleCtx) {
 			}
 		}
 	}
-	c.add(statusOf(nsites >= 3), "producer-sites", "-", "native index producer call sites are found (confirmed by hand: 3)", fmt.Sprintf("found %d", nsites), props, nil)
+	c.add(statusOf(nsites >= half(3)), "producer-sites", "-", "native index producer call sites are found (confirmed by hand: 3)", fmt.Sprintf("found %d", nsites), props, nil)
 }
 
 // exitLabel names an exit by where its error comes from ("exit[err=Flush]",
